@@ -187,4 +187,16 @@ def countersDefined (p : Program) : Bool :=
     | .head (.node i) _ => !(flags.getD i false)
     | _ => true
 
+/-- nodes whose rows are pulled by a `Head` through per-row operators only (pipelined into it): such a node is read
+only as far as the Head needs, so what a side-effecting operator there observes is a prefix, without end-of-stream -/
+def feedsHead (p : Program) : List Bool :=
+  let n := p.nodes.length
+  (List.range n).reverse.foldl (fun marks i =>
+    let mark (m : List Bool) (r : Ref) : List Bool := match r with | .node j => m.set j true | .result _ => m
+    match p.nodes.getD i default with
+    | .head s _ => mark marks s
+    | .map s _ _ | .count s _ | .filter s _ | .flatmap s _ | .writer s | .cache s _ _ =>
+      if marks.getD i false then mark marks s else marks
+    | _ => marks) (List.replicate n false)
+
 end BS.Sem
